@@ -759,7 +759,7 @@ pub fn gen_gds_lib(rng: &mut Rng, malform: u64, big: bool) -> GdsLibrary {
                 let r2 = vec![(ox + b, oy + b), (ox + a + b, oy + b), (ox + a + b, oy + a + b), (ox + b, oy + a + b), (ox + b, oy + b)];
                 let mk = |pts: &Vec<(i32, i32)>| GdsElement::GdsBoundary(GdsBoundary { layer, datatype: dt, xy: pts.iter().map(|p| GdsPoint::new(p.0, p.1)).collect(), ..Default::default() });
                 if rng.coin() { s.elems.push(mk(&r1)); s.elems.push(mk(&r2)); } else { s.elems.push(mk(&r2)); s.elems.push(mk(&r1)); }
-                let txt = |st: &str, x: i32, y: i32| GdsElement::GdsTextElem(GdsTextElem { string: st.to_string(), layer, texttype: 0, xy: GdsPoint::new(x, y), ..Default::default() });
+                let txt = |st: &str, x: i32, y: i32| GdsElement::GdsTextElem(GdsTextElem { string: st.to_string(), layer, texttype: x.rem_euclid(3) as i16, xy: GdsPoint::new(x, y), ..Default::default() });
                 s.elems.push(txt("first", ox + 1, oy + 1));
                 s.elems.push(txt("second", ox + b + 1, oy + b + 1));
                 if rng.coin() { s.elems.push(txt("third", ox + a + b - 1, oy + a + b - 1)); }
@@ -847,7 +847,7 @@ pub fn gen_gds_lib(rng: &mut Rng, malform: u64, big: bool) -> GdsLibrary {
             }
             if let Some(l) = label_at {
                 if rng.coin() {
-                    s.elems.push(GdsElement::GdsTextElem(GdsTextElem { string: ["VDD", "out", "Net_1"][rng.below(3) as usize].to_string(), layer: if rng.chance(1, 5) { 99 } else { layer }, texttype: 0, xy: GdsPoint::new(l.0, l.1), ..Default::default() }));
+                    s.elems.push(GdsElement::GdsTextElem(GdsTextElem { string: ["VDD", "out", "Net_1"][rng.below(3) as usize].to_string(), layer: if rng.chance(1, 5) { 99 } else { layer }, texttype: (l.0 + l.1).rem_euclid(3) as i16, xy: GdsPoint::new(l.0, l.1), ..Default::default() }));
                 }
             }
         }
